@@ -134,7 +134,7 @@ class FnSplicer:
     def splice(self):
         rf, it, spec = self.rf, self.it, self.spec
         known = {'result', 'requires', 'ensures', 'decreases', 'loops', 'proofs', 'closures', 'props', 'note',
-                 'unroll_fn_array', 'opens_invariants', 'no_unwind', 'external_body', 'returns', 'mode_attr', 'assumed', 'slice_matches', 'retain', 'take_while_count', 'proved_in', 'rev_find', 'filter_map_collect', 'map_sum', 'for_each', 'opaque_bools', 'drop_lets'}
+                 'unroll_fn_array', 'opens_invariants', 'no_unwind', 'external_body', 'returns', 'mode_attr', 'assumed', 'slice_matches', 'retain', 'take_while_count', 'proved_in', 'rev_find', 'filter_map_collect', 'map_sum', 'for_each', 'opaque_bools', 'drop_lets', 'windows_position'}
         bad = set(spec) - known
         if bad:
             raise ExtractError(f'unknown spec keys {bad}')
@@ -207,6 +207,8 @@ class FnSplicer:
             self._r13(dict(spec['map_sum']))
         if spec.get('for_each'):
             self._r14(list(spec['for_each']))
+        if spec.get('windows_position'):
+            self._r16()
         if spec.get('opaque_bools') or spec.get('drop_lets'):
             self._a1(list(spec.get('opaque_bools', [])), list(spec.get('drop_lets', [])))
         # --- proof / ghost insertions
@@ -334,6 +336,31 @@ class FnSplicer:
             tail = [rf.ct(x).text for x in range(obrace - 4, obrace)]
             if tail == ['.', 'iter_mut', '(', ')']:
                 place_toks = [rf.ct(x) for x in range(k + 1, obrace - 4)]
+            elif rf.ct(k + 1).text == '&' and rf.ct(k + 2).text == 'mut' and rf.ct(obrace - 1).text == ']':
+                # `for PAT in &mut PLACE[A..B]` (A, B optional): the elements A..B of PLACE, in order. The slice expression is evaluated
+                # once first (`let _ = &PLACE[A..B];`), so its bounds check stays an obligation exactly as in the original.
+                lb = rf.match(obrace - 1)
+                place_toks = [rf.ct(x) for x in range(k + 3, lb)]
+                if not place_toks or any(not (t.kind == 'ident' or t.text == '.') for t in place_toks):
+                    raise ExtractError(f'{self._where()}: R8: `{rf.spaced(k + 1, obrace)}` does not iterate over a sub-slice of a plain path')
+                PLACE = ''.join(t.text for t in place_toks)
+                dd = None; x = lb + 1
+                while x < obrace - 1:
+                    if rf.ct(x).text == '..':
+                        dd = x; break
+                    x = rf.match(x) + 1 if rf.ct(x).text in ('(', '[') else x + 1
+                if dd is None:
+                    raise ExtractError(f'{self._where()}: R8: sub-slice without a `..` range')
+                A = rf.spaced(lb + 1, dd).strip() or '0'
+                B = rf.spaced(dd + 1, obrace - 1).strip() or f'{PLACE}.len()'
+                RANGE = rf.spaced(lb + 1, obrace - 1).strip()
+                before = rf.spaced(kwci, obrace + 1)
+                new_head = (f'{{ let _ = &{PLACE}[{RANGE}]; let mut __i: usize = {A}; let __end: usize = {B}; while __i < __end\n{clauses}'
+                            f'{{ let {PAT} = &mut {PLACE}[__i]; __i += 1;')
+                self.ed.replace(kw.start, rf.ct(obrace).end, new_head)
+                self.ed.insert(rf.ct(cbrace).end, ' }', 1)
+                self.desugared.append({'rule': 'R8', 'loop': n, 'before': before, 'after': new_head + ' .. } }'})
+                return
             elif rf.ct(k + 1).text == '&' and rf.ct(k + 2).text == 'mut':
                 # `for PAT in &mut PLACE` is `PLACE.iter_mut()` for Vec / slices (IntoIterator for &mut Vec<T>)
                 place_toks = [rf.ct(x) for x in range(k + 3, obrace)]
@@ -769,6 +796,39 @@ class FnSplicer:
                 if rf.ct(ci).kind == 'ident' and rf.ct(ci).text == name and not any(a <= ci < b for a, b in covered):
                     raise ExtractError(f'{self._where()}: A1: `{name}` is still used outside the abstracted expressions')
 
+    def _r16(self):
+        """R16: `E.iter().tuple_windows().position(|(A, B)| BODY)` (E a plain identifier naming a Vec / slice) =>
+        `{ let mut __w: usize = 0; let mut __hit: Option<usize> = None; loop { if E.len() < 2 || __w >= E.len() - 1 { break; } let A = &E[__w];
+           let B = &E[__w + 1]; if BODY { __hit = Some(__w); break; } __w += 1; } __hit }`
+        -- itertools::tuple_windows yields the overlapping pairs (e0, e1), (e1, e2), ..; position returns the index of the first pair
+        for which BODY holds. BODY is left untouched."""
+        rf, it = self.rf, self.it
+        ci = it.body[0] + 1; end = it.body[1]; found = 0
+        want = ['.', 'iter', '(', ')', '.', 'tuple_windows', '(', ')', '.', 'position', '(', '|', '(']
+        while ci < end:
+            if rf.ct(ci).kind == 'ident' and rf.ct(ci - 1).text != '.' and ci + len(want) + 6 < end and [rf.ct(ci + k).text for k in range(1, len(want) + 1)] == want:
+                E = rf.ct(ci).text
+                op = ci + 11; cp = rf.match(op)
+                tp = ci + 13; tc = rf.match(tp)
+                inner = [rf.ct(k).text for k in range(tp + 1, tc)]
+                if len(inner) != 3 or inner[1] != ',' or rf.ct(tc + 1).text != '|':
+                    raise ExtractError(f'{self._where()}: R16 needs a closure `|(a, b)| ..`')
+                A, B = inner[0], inner[2]
+                BODY = rf.spaced(tc + 2, cp).strip()
+                cl = f'invariant_except_break __hit is None,\ninvariant __w <= {E}@.len(),\nensures __hit matches Some(__h) ==> __h + 1 < {E}@.len(),\ndecreases {E}@.len() - __w,\n'
+                before = rf.spaced(ci, cp + 1)
+                after = (f'{{ let mut __w: usize = 0; let mut __hit: Option<usize> = None; loop\n{cl}{{ if {E}.len() < 2 || __w >= {E}.len() - 1 {{ break; }} '
+                         f'let {A} = &{E}[__w]; let {B} = &{E}[__w + 1]; if {BODY} {{ __hit = Some(__w); break; }} __w += 1; }} __hit }}')
+                self.clauses += 4
+                self.ed.replace(rf.ct(ci).start, rf.ct(cp).end, after)
+                self.desugared.append({'rule': 'R16', 'before': ' '.join(before.split()), 'after': ' '.join(after.replace(cl, '').split())})
+                found += 1
+                ci = cp + 1
+                continue
+            ci += 1
+        if found != 1:
+            raise ExtractError(f'{self._where()}: R16 needs exactly one `x.iter().tuple_windows().position(|(a, b)| ..)` (found {found})')
+
     def _splice_proof(self, p, loops):
         rf, it = self.rf, self.it
         kind = p.get('kind', 'proof')
@@ -870,7 +930,7 @@ class FnSplicer:
             raise ExtractError('closure must be the sole call argument')
         close = rf.match(k)
         body_a = j + 1
-        self.ed.replace(rf.ct(ci).start, rf.ct(j).end, c['typed_params'] + ' -> (' + c['result'] + ') ensures ' + c['ensures'] + ' {')
+        self.ed.replace(rf.ct(ci).start, rf.ct(j).end, c['typed_params'] + ' -> (' + c['result'] + ')' + ((' requires ' + c['requires']) if c.get('requires') else '') + ' ensures ' + c['ensures'] + ' {')
         self.ed.insert(rf.ct(close).start, ' }', 1)
         self.clauses += 1
         self.desugared.append({'rule': 'closure-annotation', 'before': rf.spaced(ci, close), 'after': c['typed_params'] + ' -> (' + c['result'] + ') ensures .. { <same body> }'})
